@@ -19,8 +19,8 @@ META = {
                    "measure preservation, nesting and the parent maps for all coordinates",
     "assumptions": ["floats as exact reals (the fractions i/ratio are the doubles the code computes)",
                     f"1-d grids: 2-3 cells on the x-axis, increasing nodes in [-4, 8] with spacing >= {MINLEN}, total length >= 1/4",
-                    "triangle grids: one or two triangles with symbolic vertices displaced by at most 1/8 in each coordinate from a "
-                    "reference position (stays positively oriented, area >= 1/4)",
+                    "triangle grids: one or two triangles with all vertices symbolic, and 2x1 / 2x2 structured triangle grids with "
+                    "1-2 symbolic vertices; displacements of at most 1/8 in each coordinate (cells stay positively oriented)",
                     "extrusion layers: 2-3 symbolic increasing z values starting at 0, thickness >= 1/64"],
     "stubs": ["np.sqrt(x): |t| when x is syntactically t*t, otherwise fresh r >= 0 with r*r == x"],
     "outside": ["structured_refinement, mdg_refinement, GridSequenceFactory (gmsh)", "extrusion 2d->3d (3-d geometry, see C19)",
@@ -37,6 +37,11 @@ def shards(tier, seed):
         out.append({"kind": "remesh1d", "n": n, "num_nodes": nn})
     for nt in (1, 2):
         out.append({"kind": "refine_tri", "nt": nt})
+    # larger triangle grids (cells whose shared node sits at different positions of the sorted node
+    # lists): concrete structured grids, one or two displaced nodes
+    for dims, nodesets in (((2, 1), ([1], [4], [0, 4])), ((2, 2), ([4], [1, 3]))):
+        for ns in (nodesets if tier != "quick" else nodesets[:2]):
+            out.append({"kind": "refine_tri", "nt": 0, "dims": list(dims), "nodes": ns})
     for n, nz in (((1, 2), (2, 2)) if tier == "quick" else ((1, 2), (2, 2), (1, 3), (2, 3))):
         out.append({"kind": "extrude1d", "n": n, "nz": nz})
     for nz in (2, 3, 4):
@@ -47,6 +52,7 @@ def shards(tier, seed):
 def configure(cfg, tier):
     cfg.incremental_first = False
     cfg.slice_first = True
+    cfg.simplify_div = True
     cfg.fresh_branches = True
     cfg.interval_first = True
     cfg.branch_timeout_ms = 10000
@@ -123,36 +129,87 @@ def harness(ctx, shard):
             ctx.check("new-cells-inside-the-old-line", z3.And(lo >= lift(xs[0]), hi <= lift(xs[-1]), lift(V[c]) > 0), case)
     elif kind == "refine_tri":
         nt = shard["nt"]
-        ref = np.array([[0.0, 1.0, 0.0, 1.0], [0.0, 0.0, 1.0, 1.0]])[:, : (3 if nt == 1 else 4)]
-        tri = np.array([[0, 1, 2]]).T if nt == 1 else np.array([[0, 1, 2], [1, 3, 2]]).T
+        if nt == 0:
+            g = pp.StructuredTriangleGrid(shard["dims"])
+            ref = g.nodes[:2].copy()
+            # cell-node table from a separate copy: the grid handed to the refinement is left exactly as
+            # constructed (queries such as cell_nodes() may change the internal index order)
+            cn = pp.StructuredTriangleGrid(shard["dims"]).cell_nodes().tocsc()
+            tri = cn.indices.reshape((3, g.num_cells), order="F")
+            moved = shard["nodes"]
+        else:
+            ref = np.array([[0.0, 1.0, 0.0, 1.0], [0.0, 0.0, 1.0, 1.0]])[:, : (3 if nt == 1 else 4)]
+            tri = np.array([[0, 1, 2]]).T if nt == 1 else np.array([[0, 1, 2], [1, 3, 2]]).T
+            g = pp.TriangleGrid(np.vstack([ref, np.zeros(ref.shape[1])]), tri=tri)
+            moved = list(range(ref.shape[1]))
         nn = ref.shape[1]
-        d = [[ctx.real(f"d{k}_{i}", -0.125, 0.125) for k in range(2)] for i in range(nn)]
+        d = [[ctx.real(f"d{k}_{i}", -0.125, 0.125) for k in range(2)] for i in moved]
         inputs["d"] = d
-        g = pp.TriangleGrid(np.vstack([ref, np.zeros(nn)]), tri=tri)
         N = np.empty((3, nn), dtype=object)
         for i in range(nn):
-            N[0, i] = SReal(rv(float(ref[0, i]))) + d[i][0]
-            N[1, i] = SReal(rv(float(ref[1, i]))) + d[i][1]
+            N[0, i] = SReal(rv(float(ref[0, i])))
+            N[1, i] = SReal(rv(float(ref[1, i])))
             N[2, i] = SReal(rv(0))
+        for i, dv in zip(moved, d):
+            N[0, i] = N[0, i] + dv[0]
+            N[1, i] = N[1, i] + dv[1]
         g.nodes = N.copy().view(SymArr)
         g.compute_geometry()
         gn, parent = pp.refinement.refine_triangle_grid(g)
-        gn.compute_geometry()
         parent = np.asarray(parent)
         ctx.check("cell-count-and-parent-map", gn.num_cells == 4 * g.num_cells and parent.shape == (gn.num_cells,)
                   and all(0 <= int(p) < g.num_cells for p in parent.tolist()), case)
-        Vn, Vo = np.asarray(gn.cell_volumes, dtype=object), np.asarray(g.cell_volumes, dtype=object)
-        ctx.check("total-measure-preserved", z3.Sum([lift(v) for v in Vn.tolist()]) == z3.Sum([lift(v) for v in Vo.tolist()]), case)
+        # measures of the new cells from the new nodes (shoelace; the orientation of each triangle is taken
+        # from the undisplaced configuration) -- the geometry computation itself is the subject of C19
+        Nn = np.asarray(gn.nodes, dtype=object)
+        subs = [(lift(x), z3.RealVal(0)) for dv in d for x in dv]
+        cnn = gn.cell_nodes().tocsc()
+
+        def tri_area(Nsym, idx):
+            pts = [(lift(Nsym[0, i]), lift(Nsym[1, i])) for i in idx]
+            (x0, y0), (x1, y1), (x2, y2) = pts
+            ar = ((x1 - x0) * (y2 - y0) - (y1 - y0) * (x2 - x0)) / 2
+            a0 = z3.simplify(z3.substitute(ar, *subs))
+            return ar if a0.as_fraction() > 0 else -ar, pts
+
+        Vn, Cn, Tn = [], [], []
+        for c in range(gn.num_cells):
+            idx = [int(i) for i in cnn.indices[cnn.indptr[c]:cnn.indptr[c + 1]]]
+            ctx.check("new-cells-are-triangles", len(idx) == 3, case)
+            ar, pts = tri_area(Nn, idx)
+            if not z3.eq(ar, z3.simplify(ar)) or True:
+                # counter-clockwise vertex list of the child (orientation of the undisplaced configuration)
+                (x0, y0), (x1, y1), (x2, y2) = pts
+                a0 = z3.simplify(z3.substitute(((x1 - x0) * (y2 - y0) - (y1 - y0) * (x2 - x0)), *subs))
+                Tn.append(pts if a0.as_fraction() > 0 else [pts[0], pts[2], pts[1]])
+            Vn.append(ar)
+            Cn.append((z3.Sum([p[0] for p in pts]) / 3, z3.Sum([p[1] for p in pts]) / 3))
+        Vo = [tri_area(N, [int(t) for t in tri[:, k]])[0] for k in range(g.num_cells)]
+        ctx.check("total-measure-preserved", z3.Sum(Vn) == z3.Sum(Vo), case)
         for k in range(g.num_cells):
             ch = [c for c in range(gn.num_cells) if int(parent[c]) == k]
             ctx.check("four-children-per-parent", len(ch) == 4, case)
-            ctx.check("children-fill-their-parent", z3.Sum([lift(Vn[c]) for c in ch]) == lift(Vo[k]), case)
-            # children lie inside the parent: their centres have non-negative barycentric coordinates
+            ctx.check("children-fill-their-parent", z3.Sum([Vn[c] for c in ch]) == Vo[k], case)
+            # children lie inside the parent: their centres have positive barycentric coordinates
             a, b, c3 = [int(t) for t in tri[:, k]]
+            if float((ref[0, b] - ref[0, a]) * (ref[1, c3] - ref[1, a]) - (ref[1, b] - ref[1, a]) * (ref[0, c3] - ref[0, a])) < 0:
+                b, c3 = c3, b           # counter-clockwise
             P = [(lift(N[0, i]), lift(N[1, i])) for i in (a, b, c3)]
+            # the children tile the parent: together with the area sum and containment, no two children
+            # may overlap (separating-axis test on the edges of the two triangles)
+            for i1 in range(len(ch)):
+                for i2 in range(i1 + 1, len(ch)):
+                    ta, tb = Tn[ch[i1]], Tn[ch[i2]]
+                    seps = []
+                    for (tri1, tri2) in ((ta, tb), (tb, ta)):
+                        for e in range(3):
+                            p0, p1 = tri1[e], tri1[(e + 1) % 3]
+                            seps.append(z3.And([(p1[0] - p0[0]) * (q_[1] - p0[1]) - (p1[1] - p0[1]) * (q_[0] - p0[0]) <= 0
+                                                for q_ in tri2]))
+                    ctx.check("children-do-not-overlap", z3.Or(seps), case)
             for c in ch:
-                ctx.check("new-cells-have-positive-measure", lift(Vn[c]) > 0, case)
-                q = (lift(gn.cell_centers[0, c]), lift(gn.cell_centers[1, c]))
+                ctx.check("new-cells-have-positive-measure", Vn[c] > 0, case)
+                q = Cn[c]
                 for (p0, p1) in ((P[0], P[1]), (P[1], P[2]), (P[2], P[0])):
                     det = (p1[0] - p0[0]) * (q[1] - p0[1]) - (p1[1] - p0[1]) * (q[0] - p0[0])
                     ctx.check("child-centre-inside-parent", det > 0, case)
@@ -261,10 +318,18 @@ def replay_case(case):
             problems.append("nodes outside the old line")
     elif kind == "refine_tri":
         nt = shard["nt"]
-        ref = np.array([[0.0, 1.0, 0.0, 1.0], [0.0, 0.0, 1.0, 1.0]])[:, : (3 if nt == 1 else 4)]
-        tri = np.array([[0, 1, 2]]).T if nt == 1 else np.array([[0, 1, 2], [1, 3, 2]]).T
-        p = ref + np.array(case["d"], dtype=float).T
-        g = pp.TriangleGrid(np.vstack([p, np.zeros(p.shape[1])]), tri=tri)
+        if nt == 0:
+            g = pp.StructuredTriangleGrid(shard["dims"])
+            for i, dv in zip(shard["nodes"], case["d"]):
+                g.nodes[0, i] += dv[0]
+                g.nodes[1, i] += dv[1]
+            cn = pp.StructuredTriangleGrid(shard["dims"]).cell_nodes().tocsc()
+            tri = cn.indices.reshape((3, g.num_cells), order="F")
+        else:
+            ref = np.array([[0.0, 1.0, 0.0, 1.0], [0.0, 0.0, 1.0, 1.0]])[:, : (3 if nt == 1 else 4)]
+            tri = np.array([[0, 1, 2]]).T if nt == 1 else np.array([[0, 1, 2], [1, 3, 2]]).T
+            p = ref + np.array(case["d"], dtype=float).T
+            g = pp.TriangleGrid(np.vstack([p, np.zeros(p.shape[1])]), tri=tri)
         g.compute_geometry()
         gn, parent = pp.refinement.refine_triangle_grid(g)
         gn.compute_geometry()
